@@ -7,7 +7,10 @@ func registerMore(m map[string]propSpec) {
 	c01 := m["C01"]
 	c01.Engines = append(c01.Engines, engine{Harness: "adapt", Overlay: "base", Name: "sched", Shards: 8})
 	m["C01"] = c01
-	m["C10"] = propSpec{Level: "model_checking", Engines: []engine{{Harness: "mux", Overlay: "mux", Name: "mux", Shards: -1, MemMB: 4096}}}
+	m["C10"] = propSpec{Level: "model_checking", Engines: []engine{
+		{Harness: "mux", Overlay: "mux", Name: "mux", Shards: -1, MemMB: 4096},
+		{Harness: "muxreal", Overlay: "base", Name: "real"},
+	}}
 	m["C11"] = propSpec{Level: "model_checking", Engines: []engine{{Harness: "mux", Overlay: "mux", Name: "mux", Shards: -1, MemMB: 4096}}}
 	m["C09"] = propSpec{Level: "model_checking", Engines: []engine{{Harness: "syncx", Overlay: "base", Name: "seam"}, {Harness: "syncx", Overlay: "base", Name: "full"}}}
 	m["C07"] = propSpec{Level: "fault_enumeration", Engines: []engine{
